@@ -1,10 +1,10 @@
-import Std.Data.HashMap
 import Percival.Driver.Loop
 import Percival.Driver.Ds
-import Percival.Model.EvReg
+import Percival.Model.AfStep
 /-!
-`pmodel af`: line protocol of harness/h_allocfail.c (driver code) — pointer heap, timer queue and event
-registration under an allocation-failure schedule.
+`pmodel af`: line protocol of harness/h_allocfail.c — pointer heap, timer queue and event registration under an
+allocation-failure schedule.  Thin by construction: `parseOp` turns a line into a typed `Spec.AfMon.Op`,
+`Model.AfStep.stepOp` does everything else, `render` prints its typed output.
 
 Ops: `failat k` / `failfrom k` / `failoff`; `h_init`, `h_add id key`, `h_min`, `h_delmin`, `h_free`;
 `reg_imm id prio`, `cancel_imm id`, `reg_tm id usec`, `cancel_tm id`, `reg_net id fd w`, `cancel_net fd w`,
@@ -12,175 +12,73 @@ Ops: `failat k` / `failfrom k` / `failoff`; `h_init`, `h_add id key`, `h_min`, `
 and allocation / the whole registration state, pool fill, live library blocks, request sizes.
 -/
 namespace Percival.Driver.Af
-open Percival.Driver Percival.Model Percival.Model.EvReg Percival.Model.HeapAlloc
-open Percival.Driver.Ds (sched rf l2c)
+open Percival.Driver Percival.Model Percival.Model.EvReg Percival.Model.AfStep
+open Percival.Spec.AfMon (Op)
+open Percival.Driver.Ds (showL2c showWord)
 
-structure S where
-  m : Mem := { f := sched 0 0 0 }
-  h : Option HeapA := none
-  keys : Std.HashMap Nat Int := {}
-  hlive : List Nat := []
-  ev : Ev := {}
-  now : Int := 1000000
-  net : List (Nat × Bool) := []     -- what the harness believes is registered (for `end`)
+/-! ## text → typed op (shared with `pmodel afmon`) -/
 
-def keyFn (k : Std.HashMap Nat Int) (e : Nat) : Int := k.getD e 0
+def parseOp : List String → Option Op
+  | ["failat", k] => do pure (.failat (← k.toNat?))
+  | ["failfrom", k] => do pure (.failfrom (← k.toNat?))
+  | ["failoff"] => some .failoff
+  | ["end"] => some .end_
+  | ["h_init"] => some .hInit
+  | ["h_add", id, k] => do pure (.hAdd (← id.toNat?) (← k.toInt?))
+  | ["h_min"] => some .hMin
+  | ["h_delmin"] => some .hDelmin
+  | ["h_free"] => some .hFree
+  | ["reg_imm", id, prio] => do pure (.regImm (← id.toNat?) (← prio.toNat?))
+  | ["cancel_imm", id] => do pure (.cancelImm (← id.toNat?))
+  | ["reg_tm", id, usec] => do pure (.regTm (← id.toNat?) (← usec.toInt?))
+  | ["cancel_tm", id] => do pure (.cancelTm (← id.toNat?))
+  | ["reg_net", id, fd, w] => do pure (.regNet (← id.toNat?) (← fd.toNat?) ((← w.toNat?) != 0))
+  | ["cancel_net", fd, w] => do pure (.cancelNet (← fd.toNat?) ((← w.toNat?) != 0))
+  | ["clock", us] => do pure (.clock (← us.toInt?))
+  | ["run"] => some .run
+  | _ => none
+
+/-! ## typed output → text -/
 
 def showList (l : List String) (sep : String := ",") : String := if l.isEmpty then "-" else sep.intercalate l
 
-def hL2 (h : Option HeapA) (m m' : Mem) : String :=
-  match h with
-  | some ha => s!"a={showList (ha.h.a.toList.map toString)} hal={ha.alloc} {l2c m m'}"
-  | none => s!"a=- hal=0 {l2c m m'}"
+def showHL2 (x : HL2) : String := s!"a={showList (x.a.map toString)} hal={x.hal} {showL2c x.c}"
 
-def clearLog (ha : HeapA) : HeapA := { ha with h := { ha.h with log := [] } }
-
-def evL2 (e : Ev) (m m' : Mem) : String :=
-  let imm := (e.heads.zipIdx.filter (fun p => !p.1.isEmpty)).map fun p =>
-    s!"{p.2}:{",".intercalate (p.1.map fun x => toString x.id)}"
-  let tq := match e.tq with
+def showEvL2 (x : EvL2) : String :=
+  let imm := x.imm.map fun p => s!"{p.1}:{",".intercalate (p.2.map toString)}"
+  let opt (o : Option Nat) := match o with | some v => toString v | none => "_"
+  let tq := match x.tq with
     | none => "null"
-    | some t =>
-      let ids := t.q.h.a.toList.map fun r =>
-        match TimerQueue.lookup t.q.recs r with
-        | some rec => match e.timers.find? (fun (x : TmEnt) => x.tid == rec.ptr) with
-          | some ent => toString ent.id
-          | none => "?"
-        | none => "?"
-      s!"{showList ids} tal={t.alloc}"
-  let opt (o : Option Nat) := match o with | some x => toString x | none => "_"
-  let sk := match e.sAlloc with
+    | some (ids, tal) => s!"{showList (ids.map fun (o : Option Nat) => match o with | some id => toString id | none => "?")} tal={tal}"
+  let sk := match x.socks with
     | none => "null"
-    | some sal =>
-      let ents := e.socks.map fun (r : SockRec) => s!"{opt (r.reader.map Prod.snd)}/{opt (r.writer.map Prod.snd)}/{opt r.pollpos}"
-      s!"{showList ents} sal={sal} fds={showList (e.fds.map fun (p : Nat × Nat) => s!"{p.1}:{p.2}")} fal={e.fdsAlloc}"
-  s!"imm={showList imm ";"} minq={e.minq} tq={tq} S={sk} rp={e.recPool.stacklen}/{e.recPool.allocsize} qp={e.qPool.stacklen}/{e.qPool.allocsize} {l2c m m'}"
+    | some (ents, sal, fds, fal) =>
+      let es := ents.map fun (r : Option Nat × Option Nat × Option Nat) => s!"{opt r.1}/{opt r.2.1}/{opt r.2.2}"
+      s!"{showList es} sal={sal} fds={showList (fds.map fun (p : Nat × Nat) => s!"{p.1}:{p.2}")} fal={fal}"
+  s!"imm={showList imm ";"} minq={x.minq} tq={tq} S={sk} rp={x.rp.1}/{x.rp.2} qp={x.qp.1}/{x.qp.2} {showL2c x.c}"
 
-def registeredImm (e : Ev) (id : Nat) : Bool := e.heads.any (·.any (·.id == id))
-def registeredTm (e : Ev) (id : Nat) : Bool := e.timers.any (·.id == id)
+def showRes : NetRes → String
+  | .ok => "ok" | .fail => "fail" | .exists_ => "exists" | .noent => "noent" | .broken => "broken"
 
-/-- trim the heap's notification log (it is only read through `posOf`, which sees the newest entry) -/
-def trimTq (e : Ev) : Ev :=
-  match e.tq with
-  | some t =>
-    -- keep the newest notification per live record
-    let live := t.q.h.a.toList
-    let log := live.filterMap fun r => (t.q.h.log.find? (·.1 == r))
-    { e with tq := some { t with q := { t.q with h := { t.q.h with log := log } } } }
-  | none => e
-
-/-- everything `release_all` of the harness does -/
-def releaseAll (s : S) : S :=
-  let m0 : Mem := { s.m with f := sched 0 0 0 }
-  let ids := ((s.ev.heads.flatten.map (·.id)) ++ (s.ev.timers.map (·.id))).mergeSort (· ≤ ·)
-  let (e1, m1) := ids.foldl (fun (em : Ev × Mem) id =>
-    match immCancel em.1 id em.2 with
-    | some r => r
-    | none => match tmCancel em.1 id em.2 with
-      | some r => r
-      | none => em) (s.ev, m0)
-  let socks := s.net.mergeSort (fun a b => a.1 < b.1 || (a.1 == b.1 && (!a.2 || b.2)))
-  let (e2, m2) := socks.foldl (fun (em : Ev × Mem) sw =>
-    match netCancel em.1 sw.1 sw.2 em.2 with
-    | (_, e', m') => (e', m')) (e1, m1)
-  let (_, m3) := shutdown e2 m2
-  let m4 := match s.h with | some ha => HeapAlloc.free ha m3 | none => m3
-  { s with m := m4, h := none, hlive := [], ev := {}, now := 1000000, net := [] }
+def render : Out → String
+  | .word w => showWord w
+  | .end_ live n => s!"end live={live} leaked=0 | n={n}"
+  | .heap ok rfn id l2 =>
+    let idS := match id with
+      | none => ""
+      | some none => " id=none"
+      | some (some e) => s!" id={e}"
+    s!"{if ok then "ok" else "fail"} rf={rfn}{idS} | {showHL2 l2}"
+  | .ev st rfn ran l2 =>
+    let ranS := match ran with
+      | none => ""
+      | some ids => s!" ran={showList (ids.map toString)}"
+    s!"{showRes st} rf={rfn}{ranS} | {showEvL2 l2}"
 
 def step (s : S) (toks : List String) : S × String :=
-  let m := s.m
-  match toks with
-  | ["failat", k] => ({ s with m := { m with f := sched 1 k.toNat! m.n } }, "ok")
-  | ["failfrom", k] => ({ s with m := { m with f := sched 2 k.toNat! m.n } }, "ok")
-  | ["failoff"] => ({ s with m := { m with f := sched 0 0 0 } }, "ok")
-  | ["end"] =>
-    let s' := releaseAll s
-    (s', s!"end live={s'.m.live} leaked=0 | n={s'.m.n}")
-  -- ---------------------------------------------------------------- pointer heap
-  | ["h_init"] =>
-    let m0 := match s.h with | some ha => HeapAlloc.free ha m | none => m
-    match HeapAlloc.init m0 with
-    | (some ha, m') => ({ s with m := m', h := some ha, hlive := [] }, s!"ok rf={rf m0 m'} | {hL2 (some ha) m0 m'}")
-    | (none, m') => ({ s with m := m', h := none, hlive := [] }, s!"fail rf={rf m0 m'} | {hL2 none m0 m'}")
-  | ["h_add", id, k] =>
-    match s.h with
-    | none => (s, "skip")
-    | some ha =>
-      let e := id.toNat!
-      if e ≥ 4096 || s.hlive.contains e then (s, "skip") else
-      let keys := s.keys.insert e k.toInt!
-      match HeapAlloc.add (keyFn keys) ha e m with
-      | (true, ha', m') =>
-        ({ s with m := m', h := some (clearLog ha'), keys := keys, hlive := e :: s.hlive },
-         s!"ok rf={rf m m'} | {hL2 (some ha') m m'}")
-      | (false, ha', m') => ({ s with m := m', h := some ha', keys := keys }, s!"fail rf={rf m m'} | {hL2 (some ha') m m'}")
-  | ["h_min"] =>
-    match s.h with
-    | none => (s, "skip")
-    | some ha =>
-      let id := match Heap.getmin ha.h with | some e => toString e | none => "none"
-      (s, s!"ok rf=0 id={id} | {hL2 s.h m m}")
-  | ["h_delmin"] =>
-    match s.h with
-    | none => (s, "skip")
-    | some ha =>
-      match Heap.getmin ha.h, HeapAlloc.delete (keyFn s.keys) ha 0 m with
-      | some e, some (ha', m') =>
-        ({ s with m := m', h := some (clearLog ha'), hlive := s.hlive.erase e }, s!"ok rf={rf m m'} id={e} | {hL2 (some ha') m m'}")
-      | _, _ => (s, "skip")
-  | ["h_free"] =>
-    match s.h with
-    | none => (s, "skip")
-    | some ha =>
-      let m' := HeapAlloc.free ha m
-      ({ s with m := m', h := none, hlive := [] }, s!"ok rf=0 | {hL2 none m m'}")
-  -- ---------------------------------------------------------------- events
-  | ["reg_imm", id, prio] =>
-    let i := id.toNat!
-    if i ≥ 4096 || registeredImm s.ev i || registeredTm s.ev i then (s, "skip") else
-    match immReg s.ev i prio.toNat! m with
-    | (ok, e', m') => ({ s with m := m', ev := e' }, s!"{if ok then "ok" else "fail"} rf={rf m m'} | {evL2 e' m m'}")
-  | ["cancel_imm", id] =>
-    match immCancel s.ev id.toNat! m with
-    | some (e', m') => ({ s with m := m', ev := e' }, s!"ok rf={rf m m'} | {evL2 e' m m'}")
-    | none => (s, "skip")
-  | ["reg_tm", id, usec] =>
-    let i := id.toNat!
-    if i ≥ 4096 || registeredImm s.ev i || registeredTm s.ev i then (s, "skip") else
-    match tmReg s.ev i usec.toInt! s.now m with
-    | (ok, e', m') =>
-      let e' := trimTq e'
-      ({ s with m := m', ev := e' }, s!"{if ok then "ok" else "fail"} rf={rf m m'} | {evL2 e' m m'}")
-  | ["cancel_tm", id] =>
-    match tmCancel s.ev id.toNat! m with
-    | some (e', m') =>
-      let e' := trimTq e'
-      ({ s with m := m', ev := e' }, s!"ok rf={rf m m'} | {evL2 e' m m'}")
-    | none => (s, "skip")
-  | ["reg_net", id, fd, w] =>
-    let i := id.toNat!; let sfd := fd.toNat!; let isW := w.toNat! != 0
-    if i ≥ 4096 || sfd ≥ 64 then (s, "skip") else
-    match netReg s.ev i sfd isW m with
-    | (r, e', m') =>
-      let st := match r with | .ok => "ok" | .fail => "fail" | .exists_ => "exists" | .noent => "noent" | .broken => "broken"
-      let net := if r == .ok then (sfd, isW) :: s.net else s.net
-      ({ s with m := m', ev := e', net := net }, s!"{st} rf={rf m m'} | {evL2 e' m m'}")
-  | ["cancel_net", fd, w] =>
-    let sfd := fd.toNat!; let isW := w.toNat! != 0
-    if sfd ≥ 64 then (s, "skip") else
-    match netCancel s.ev sfd isW m with
-    | (r, e', m') =>
-      let st := match r with | .ok => "ok" | .fail => "fail" | .exists_ => "exists" | .noent => "noent" | .broken => "broken"
-      let net := if r == .ok then s.net.erase (sfd, isW) else s.net
-      ({ s with m := m', ev := e', net := net }, s!"{st} rf={rf m m'} | {evL2 e' m m'}")
-  | ["clock", us] => ({ s with now := s.now + us.toInt! }, "ok")
-  | ["run"] =>
-    match run s.ev s.now m with
-    | (ok, ran, e', m') =>
-      let e' := trimTq e'
-      ({ s with m := m', ev := e' },
-       s!"{if ok then "ok" else "fail"} rf={rf m m'} ran={showList (ran.map toString)} | {evL2 e' m m'}")
-  | _ => (s, "bad-op")
+  match parseOp toks with
+  | some op => let (s', o) := stepOp s op; (s', render o)
+  | none => (s, "bad-op")
 
 def main (_args : List String) : IO UInt32 := loop ({} : S) step
 
